@@ -441,5 +441,326 @@ theorem sortRow_dense (d : Bool) (n : Nat) (fill : Int) (es : Row) (h : RowWF n 
   rw [← List.append_assoc, List.take_append_drop, sortedData_length]
   exact List.Perm.append_right _ (sortedData_perm d es)
 
+/-! ### argmax / argmin -/
+
+theorem argmaxD_eq {l : List Int} {i : Nat} (hi : i < l.length) (hmax : ∀ w ∈ l, w ≤ l[i])
+    (hfirst : ∀ j (hj : j < i), l[j] < l[i]) : argmaxD l = i := by
+  unfold argmaxD
+  rw [List.findIdx_eq hi]
+  constructor
+  · simp only [List.all_eq_true, decide_eq_true_eq]
+    exact hmax
+  · intro j hj
+    rw [List.all_eq_false]
+    refine ⟨l[i], List.getElem_mem hi, ?_⟩
+    have := hfirst j hj
+    simp only [decide_eq_true_eq]
+    omega
+
+theorem exists_max : ∀ (l : List Int), l ≠ [] → ∃ m ∈ l, ∀ w ∈ l, w ≤ m
+  | [a], _ => ⟨a, List.mem_cons_self, fun w hw => by simp at hw; omega⟩
+  | a :: b :: t, _ => by
+    obtain ⟨m, hm, hmax⟩ := exists_max (b :: t) (by simp)
+    by_cases h : a ≤ m
+    · refine ⟨m, List.mem_cons_of_mem _ hm, fun w hw => ?_⟩
+      rcases List.mem_cons.mp hw with rfl | hw
+      · exact h
+      · exact hmax w hw
+    · refine ⟨a, List.mem_cons_self, fun w hw => ?_⟩
+      rcases List.mem_cons.mp hw with rfl | hw
+      · omega
+      · have := hmax w hw; omega
+
+theorem argmaxD_spec {l : List Int} (hne : l ≠ []) :
+    ∃ (h : argmaxD l < l.length), (∀ w ∈ l, w ≤ l[argmaxD l]) ∧ ∀ j (hj : j < argmaxD l), l[j] < l[argmaxD l] := by
+  obtain ⟨m, hm, hmax⟩ := exists_max l hne
+  have hex : ∃ x ∈ l, (l.all fun w => decide (w ≤ x)) = true :=
+    ⟨m, hm, by simpa [List.all_eq_true] using hmax⟩
+  have hlt : argmaxD l < l.length := List.findIdx_lt_length_of_exists hex
+  have hp : (l.all fun w => decide (w ≤ l[argmaxD l])) = true := List.findIdx_getElem (w := hlt)
+  have hall : ∀ w ∈ l, w ≤ l[argmaxD l] := by
+    intro w hw
+    have := List.all_eq_true.mp hp w hw
+    simpa using this
+  refine ⟨hlt, hall, fun j hj => ?_⟩
+  have hn := List.not_of_lt_findIdx (p := fun v => l.all fun w => decide (w ≤ v)) (xs := l) hj
+  rw [List.all_eq_false] at hn
+  obtain ⟨w, hw, hwj⟩ := hn
+  have := hall w hw
+  simp only [decide_eq_true_eq] at hwj
+  omega
+
+theorem getElem_keysR (es : Row) (a : Nat) (h : a < es.length) : (keysR es)[a]'(by simpa [keysR] using h) = es[a].1 := by
+  simp [keysR]
+
+theorem sorted_keys_index_lt {es : Row} (h : (keysR es).Pairwise (· < ·)) {a b : Nat} (ha : a < es.length)
+    (hb : b < es.length) (hlt : es[a].1 < es[b].1) : a < b := by
+  apply Decidable.byContradiction
+  intro hnot
+  have hba : b ≤ a := by omega
+  rcases Nat.lt_or_eq_of_le hba with hba | hba
+  · have := List.pairwise_iff_getElem.mp h b a (by simpa [keysR] using hb) (by simpa [keysR] using ha) hba
+    rw [getElem_keysR es b hb, getElem_keysR es a ha] at this
+    omega
+  · subst hba; omega
+
+/-- a full row stores every position -/
+theorem RowFrom.full : ∀ {es : Row} {s n : Nat}, RowFrom s n es → es.length = n - s →
+    ∀ j, s ≤ j → j < n → j ∈ keysR es
+  | [], s, n, _, hl, j, h1, h2 => by simp at hl; omega
+  | (p, v) :: es, s, n, h, hl, j, h1, h2 => by
+    have hh := h.head
+    have ht := h.tail
+    have hle := RowFrom.length_le ht
+    simp only [List.length_cons] at hl
+    have hp : p = s := by omega
+    simp only [keysR, List.map_cons, List.mem_cons]
+    by_cases hj : j = p
+    · left; exact hj
+    · right
+      exact RowFrom.full ht (by omega) j (by omega) h2
+
+/-- the first-gap loop on sorted positions: it returns the first unstored position -/
+theorem gapSearch_spec : ∀ (ks : List Nat) (s : Nat), ks.Pairwise (· < ·) → (∀ k ∈ ks, s ≤ k) →
+    s ≤ gapSearch ((s : Int) - 1) s ks ∧ gapSearch ((s : Int) - 1) s ks ≤ s + ks.length ∧
+    gapSearch ((s : Int) - 1) s ks ∉ ks ∧ ∀ j, s ≤ j → j < gapSearch ((s : Int) - 1) s ks → j ∈ ks
+  | [], s, _, _ => by
+    have : ((s : Int) - 1 + 1).toNat = s := by omega
+    simp [gapSearch, this]
+  | c :: cs, s, hp, hb => by
+    have hc : s ≤ c := hb c List.mem_cons_self
+    rw [List.pairwise_cons] at hp
+    unfold gapSearch
+    by_cases hgap : (c : Int) - ((s : Int) - 1) > 1
+    · simp only [hgap, if_true]
+      refine ⟨Nat.le_refl _, by omega, ?_, fun j h1 h2 => by omega⟩
+      intro hm
+      rcases List.mem_cons.mp hm with h | h
+      · omega
+      · have := hp.1 s h; omega
+    · simp only [hgap, if_false]
+      have hcs : c = s := by omega
+      subst hcs
+      have ih := gapSearch_spec cs (c + 1) hp.2 (fun k hk => by have := hp.1 k hk; omega)
+      have hcast : ((c + 1 : Nat) : Int) - 1 = (c : Int) := by omega
+      rw [hcast] at ih
+      obtain ⟨i1, i2, i3, i4⟩ := ih
+      refine ⟨by omega, by simp only [List.length_cons]; omega, ?_, ?_⟩
+      · intro hm
+        rcases List.mem_cons.mp hm with h | h
+        · omega
+        · exact i3 h
+      · intro j h1 h2
+        by_cases hj : j = c
+        · subst hj; exact List.mem_cons_self
+        · exact List.mem_cons_of_mem _ (i4 j (by omega) h2)
+
+theorem mergeSort_keys_of_sorted {ks : List Nat} (h : ks.Pairwise (· < ·)) :
+    ks.mergeSort (fun a b => decide (a ≤ b)) = ks :=
+  List.mergeSort_of_pairwise (h.imp fun {a b} hab => by simp; omega)
+
+theorem mem_keysR_iff {es : Row} {j : Nat} : j ∈ keysR es ↔ ∃ v, (j, v) ∈ es := by
+  constructor
+  · intro h
+    obtain ⟨e, he, hk⟩ := List.mem_map.mp h
+    exact ⟨e.2, by rw [← hk]; exact he⟩
+  · rintro ⟨v, hv⟩
+    exact List.mem_map.mpr ⟨(j, v), hv, rfl⟩
+
+/-- **core of `argmax_first_occurrence`** (max mode) -/
+theorem argMaxCol_dense (n : Nat) (fill : Int) (es : Row) (h : RowWF n es)
+    (hex : ExcludedArgStoredFill true n fill es = false) :
+    argMinMaxCol true n fill es = argmaxD (densifyRow n fill es) := by
+  have hnd := h.nodup
+  have hlen := length_densifyRow n fill es
+  have hkn : es.length ≤ n := by simpa using RowFrom.length_le h
+  symm
+  unfold argMinMaxCol
+  simp only [if_true]
+  by_cases hcond : ((es.map (·.2)).any (fun v => decide (v > fill)) || es.length == n) = true
+  · simp only [hcond, if_true]
+    by_cases hne : es = []
+    · subst hne
+      have hn : n = 0 := by
+        have := hcond
+        simp at this
+        omega
+      subst hn
+      simp [densifyRow, argmaxD]
+    · have hvne : es.map (·.2) ≠ [] := by simpa using hne
+      obtain ⟨hb, hmaxv, hfirstv⟩ := argmaxD_spec hvne
+      have hb' : argmaxD (es.map (·.2)) < es.length := by simpa using hb
+      have hgetD : (es.map (·.1)).getD (argmaxD (es.map (·.2))) 0 = es[argmaxD (es.map (·.2))].1 := by
+        simp [List.getD_eq_getElem?_getD, hb']
+      rw [hgetD]
+      have hM : (es.map (·.2))[argmaxD (es.map (·.2))] = es[argmaxD (es.map (·.2))].2 := by simp
+      rw [hM] at hmaxv hfirstv
+      have hmem : es[argmaxD (es.map (·.2))] ∈ es := List.getElem_mem hb'
+      have hPn : es[argmaxD (es.map (·.2))].1 < n := (h.2 _ hmem).2
+      -- unstored positions carry a value below the stored maximum
+      have hunst : ∀ j, j < n → j ∉ keysR es → fill < es[argmaxD (es.map (·.2))].2 := by
+        intro j hj hnk
+        rcases Bool.or_eq_true _ _ ▸ hcond with hc | hc
+        · obtain ⟨v, hv, hvf⟩ := List.any_eq_true.mp hc
+          have := hmaxv v hv
+          simp only [gt_iff_lt, decide_eq_true_eq] at hvf
+          omega
+        · have hfull : es.length = n - 0 := by simpa using hc
+          exact absurd (RowFrom.full h hfull j (Nat.zero_le _) hj) hnk
+      have hPd : es[argmaxD (es.map (·.2))].1 < (densifyRow n fill es).length := by omega
+      have hdP : (densifyRow n fill es)[es[argmaxD (es.map (·.2))].1] = es[argmaxD (es.map (·.2))].2 := by
+        rw [getElem_densifyRow]
+        exact lookupRow_of_mem hnd hmem
+      apply argmaxD_eq hPd
+      · intro w hw
+        obtain ⟨j, hj, rfl⟩ := List.mem_iff_getElem.mp hw
+        rw [hdP, getElem_densifyRow]
+        rcases lookupRow_mem_or es fill j with ⟨hnk, hf⟩ | hm
+        · rw [hf]; have := hunst j (by omega) hnk; omega
+        · exact hmaxv _ (List.mem_map.mpr ⟨_, hm, rfl⟩)
+      · intro j hj
+        rw [hdP, getElem_densifyRow]
+        rcases lookupRow_mem_or es fill j with ⟨hnk, hf⟩ | hm
+        · rw [hf]; exact hunst j (by omega) hnk
+        · obtain ⟨a, ha, hea⟩ := List.mem_iff_getElem.mp hm
+          have hlt : es[a].1 < es[argmaxD (es.map (·.2))].1 := by rw [hea]; exact hj
+          have hab := sorted_keys_index_lt h.1 ha hb' hlt
+          have := hfirstv a hab
+          simp only [List.getElem_map, hea] at this
+          exact this
+  · simp only [hcond, Bool.false_eq_true, if_false]
+    have hcond' : ((es.map (·.2)).any (fun v => decide (v > fill)) || es.length == n) = false := by
+      simpa using hcond
+    rw [Bool.or_eq_false_iff] at hcond'
+    obtain ⟨hc1, hc2⟩ := hcond'
+    have hle : ∀ e ∈ es, e.2 ≤ fill := by
+      intro e he
+      have := List.any_eq_false.mp hc1 e.2 (List.mem_map.mpr ⟨e, he, rfl⟩)
+      simp only [gt_iff_lt, decide_eq_true_eq] at this
+      omega
+    have hk : es.length < n := by
+      have : es.length ≠ n := by simpa using hc2
+      omega
+    have hks : (es.map (·.1)).mergeSort (fun a b => decide (a ≤ b)) = es.map (·.1) := mergeSort_keys_of_sorted h.1
+    rw [hks]
+    have hg := gapSearch_spec (es.map (·.1)) 0 (show (es.map (·.1)).Pairwise (· < ·) from h.1) (fun _ _ => Nat.zero_le _)
+    have hcast : ((0 : Nat) : Int) - 1 = -1 := by omega
+    rw [hcast] at hg
+    obtain ⟨_, g2, g3, g4⟩ := hg
+    have hgn : gapSearch (-1) 0 (es.map (·.1)) < (densifyRow n fill es).length := by
+      simp only [List.length_map] at g2; omega
+    have hdg : (densifyRow n fill es)[gapSearch (-1) 0 (es.map (·.1))] = fill := by
+      rw [getElem_densifyRow]; exact lookupRow_of_not_mem g3
+    -- no stored fill value before the gap
+    have hnofill : ∀ e ∈ es, e.1 < gapSearch (-1) 0 (es.map (·.1)) → e.2 ≠ fill := by
+      intro e he hlt heq
+      unfold ExcludedArgStoredFill at hex
+      simp only [if_true, hc1, hc2, Bool.or_self, Bool.not_false, Bool.true_and, hks] at hex
+      have := List.any_eq_false.mp hex e he
+      simp [heq, hlt] at this
+    apply argmaxD_eq hgn
+    · intro w hw
+      obtain ⟨j, hj, rfl⟩ := List.mem_iff_getElem.mp hw
+      rw [hdg, getElem_densifyRow]
+      rcases lookupRow_mem_or es fill j with ⟨_, hf⟩ | hm
+      · omega
+      · exact hle _ hm
+    · intro j hj
+      rw [hdg, getElem_densifyRow]
+      have hjk := g4 j (Nat.zero_le _) hj
+      obtain ⟨v, hv⟩ := mem_keysR_iff.mp hjk
+      rw [lookupRow_of_mem hnd hv]
+      have h1 := hle _ hv
+      have h2 := hnofill _ hv hj
+      simp only at h1 h2
+      omega
+
+/-! argmin is argmax of the negated row -/
+
+def negRow (es : Row) : Row := es.map fun e => (e.1, -e.2)
+
+theorem negRow_keys (es : Row) : (negRow es).map (·.1) = es.map (·.1) := by
+  simp [negRow, Function.comp_def]
+
+theorem negRow_vals (es : Row) : (negRow es).map (·.2) = (es.map (·.2)).map (fun v => -v) := by
+  simp [negRow, Function.comp_def]
+
+theorem negRow_wf {n : Nat} {es : Row} (h : RowWF n es) : RowWF n (negRow es) := by
+  refine ⟨?_, ?_⟩
+  · have : keysR (negRow es) = keysR es := negRow_keys es
+    rw [this]; exact h.1
+  · intro e he
+    obtain ⟨e', he', rfl⟩ := List.mem_map.mp he
+    exact h.2 e' he'
+
+theorem argminD_eq_argmaxD_neg (l : List Int) : argminD l = argmaxD (l.map fun v => -v) := by
+  unfold argminD argmaxD
+  rw [List.findIdx_map]
+  congr 1
+  funext v
+  simp only [Function.comp_def, List.all_map]
+  congr 1
+  funext w
+  congr 1
+  apply propext
+  constructor <;> intro h <;> omega
+
+theorem lookupRow_neg (es : Row) (fill : Int) (i : Nat) :
+    lookupRow (negRow es) (-fill) i = -lookupRow es fill i := by
+  induction es with
+  | nil => simp [negRow, lookupRow_nil]
+  | cons e es ih =>
+    have : negRow (e :: es) = (e.1, -e.2) :: negRow es := rfl
+    rw [this, lookupRow_cons, lookupRow_cons, ih]
+    by_cases h : e.1 = i <;> simp [h]
+
+theorem densifyRow_neg (n : Nat) (fill : Int) (es : Row) :
+    densifyRow n (-fill) (negRow es) = (densifyRow n fill es).map fun v => -v := by
+  unfold densifyRow
+  rw [List.map_map]
+  apply List.map_congr_left
+  intro i _
+  exact lookupRow_neg es fill i
+
+theorem any_lt_neg (vals : List Int) (fill : Int) :
+    (vals.any fun v => decide (v < fill)) = ((vals.map fun v => -v).any fun v => decide (v > -fill)) := by
+  rw [List.any_map]
+  congr 1
+  funext v
+  simp only [Function.comp_def]
+  congr 1
+  apply propext
+  constructor <;> intro h <;> omega
+
+theorem argMinMaxCol_neg (n : Nat) (fill : Int) (es : Row) :
+    argMinMaxCol false n fill es = argMinMaxCol true n (-fill) (negRow es) := by
+  unfold argMinMaxCol
+  simp only [negRow_keys, negRow_vals, Bool.false_eq_true, if_false, if_true]
+  rw [any_lt_neg, argminD_eq_argmaxD_neg]
+  simp only [negRow, List.length_map]
+
+theorem excludedArg_neg (n : Nat) (fill : Int) (es : Row) :
+    ExcludedArgStoredFill false n fill es = ExcludedArgStoredFill true n (-fill) (negRow es) := by
+  unfold ExcludedArgStoredFill
+  simp only [negRow_keys, negRow_vals, Bool.false_eq_true, if_false, if_true]
+  rw [any_lt_neg]
+  congr 1
+  · simp only [negRow, List.length_map]
+  · simp only [negRow, List.any_map]
+    congr 1
+    funext e
+    simp only [Function.comp_def]
+    congr 1
+    rw [Bool.eq_iff_iff]
+    simp only [beq_iff_eq]
+    constructor <;> intro h <;> omega
+
+/-- **core of `argmin_first_occurrence`** -/
+theorem argMinCol_dense (n : Nat) (fill : Int) (es : Row) (h : RowWF n es)
+    (hex : ExcludedArgStoredFill false n fill es = false) :
+    argMinMaxCol false n fill es = argminD (densifyRow n fill es) := by
+  rw [argMinMaxCol_neg, argminD_eq_argmaxD_neg, ← densifyRow_neg]
+  exact argMaxCol_dense n (-fill) (negRow es) (negRow_wf h) (by rw [← excludedArg_neg]; exact hex)
+
 end Search
 end SparseV
